@@ -138,7 +138,8 @@ func (r *rng) unfoldStream(t reflect.Type) []event {
 		}
 		return evs
 	default:
-		return r.genStream(genOpts{ext: true, maxDepth: 2, refs: true, multiXObj: false})
+		// raw streams; a share of them deeply nested (the scratch buffers for interface{} regions grow at depth 5)
+		return r.genStream(genOpts{ext: true, maxDepth: 2, refs: true, multiXObj: false, deepChance: 4})
 	}
 }
 
